@@ -43,6 +43,31 @@ def outToJson : Except Err Out → Json
   | .ok (.dense vs) => obj [("dense", ofList ratToJson vs)]
   | .ok (.sparse kvs) => obj [("sparse", ofList (fun (kv : String × Rat) => Json.arr #[Json.str kv.1, ratToJson kv.2]) kvs)]
 
+/-- translator target (phase 4): ["theta"] | ["ainv"] | ["feat"] | ["reward"] | ["one"] | ["var",i] | [op,a,b] -/
+partial def parseLExp (j : Json) : Except String LExp := do
+  match j with
+  | .arr #[.str "theta"] => pure .theta
+  | .arr #[.str "ainv"] => pure .ainv
+  | .arr #[.str "feat"] => pure .feat
+  | .arr #[.str "reward"] => pure .reward
+  | .arr #[.str "one"] => pure .one
+  | .arr #[.str "var", i] => pure (.var (← nat i))
+  | .arr #[.str op, a, b] =>
+    let x ← parseLExp a
+    let y ← parseLExp b
+    match op with
+    | "matmul" => pure (.matmul x y) | "outer" => pure (.outer x y) | "add" => pure (.add x y)
+    | "sub" => pure (.sub x y) | "mul" => pure (.mul x y) | "div" => pure (.div x y)
+    | o => throw s!"unknown LExp op {o}"
+  | _ => throw "LExp expected"
+
+def parseLStmt (j : Json) : Except String LStmt := do
+  match j with
+  | .arr #[.str "assign", i, e] => pure (.assign (← nat i) (← parseLExp e))
+  | .arr #[.str "setTheta", e] => pure (.setTheta (← parseLExp e))
+  | .arr #[.str "setAinv", e] => pure (.setAinv (← parseLExp e))
+  | _ => throw "LStmt expected"
+
 def allCfgs : List Cfg :=
   [true, false].flatMap fun a => [true, false].flatMap fun b => [true, false].map fun c => ⟨a, b, c⟩
 
@@ -89,6 +114,47 @@ def handle (req : Json) : Except String Json := do
       | .num q => obj [("n", ratToJson q)]
       | .term t => obj [("t", Json.str (String.ofList t))]
     pure (obj [("terms", ofList interJ out), ("wellformed", Json.bool (wellformedTerms out))])
+  | .ok (.str "linucb") =>
+    -- {"op":"linucb","d":d,"events":[{"learn":{"f":[rat…],"reward":rat}}|{"predict":{"fs":[[rat…]…]}}…],"perm":[i…]?}
+    let d ← nat (← field req "d")
+    let events ← (← arr (← field req "events")).mapM (fun j => do
+      match j.getObjVal? "learn" with
+      | .ok l => pure (LinEvent.learn (← ratList (← field l "f")) (← ratOfJson (← field l "reward")))
+      | .error _ => do
+        let pr ← field j "predict"
+        pure (LinEvent.predict (← (← arr (← field pr "fs")).mapM ratList)))
+    let predsJ := fun (ps : List (List (Rat × Rat))) =>
+      ofList (ofList (fun (eb : Rat × Rat) => Json.arr #[ratToJson eb.1, ratToJson eb.2])) ps
+    let out := linRun (LinState.init d) events
+    let base := [("preds", predsJ out.1), ("theta", ofList ratToJson out.2.theta),
+                 ("ainv", ofList (ofList ratToJson) out.2.ainv)]
+    match req.getObjVal? "perm" with
+    | .ok pj =>
+      let p ← natList pj
+      let outp := linRun (LinState.init d) (events.map (LinEvent.perm p))
+      pure (obj (base ++ [("perm_preds", predsJ outp.1), ("perm_theta", ofList ratToJson outp.2.theta),
+                          ("perm_ainv", ofList (ofList ratToJson) outp.2.ainv)]))
+    | .error _ => pure (obj base)
+  | .ok (.str "learnprog") =>
+    -- {"op":"learnprog","d":d,"prog":[stmt…],"events":[…as for "linucb"…]} → the history run with the `learn` PROGRAM read off the source
+    let d ← nat (← field req "d")
+    let prog ← (← arr (← field req "prog")).mapM parseLStmt
+    let events ← (← arr (← field req "events")).mapM (fun j => do
+      match j.getObjVal? "learn" with
+      | .ok l => pure (LinEvent.learn (← ratList (← field l "f")) (← ratOfJson (← field l "reward")))
+      | .error _ => do
+        let pr ← field j "predict"
+        pure (LinEvent.predict (← (← arr (← field pr "fs")).mapM ratList)))
+    match linRunProg prog (LinState.init d) events with
+    | some st => pure (obj [("ok", Json.bool true), ("theta", ofList ratToJson st.theta), ("ainv", ofList (ofList ratToJson) st.ainv)])
+    | none => pure (obj [("ok", Json.bool false)])
+  | .ok (.str "fl53") =>
+    -- {"op":"fl53","chain":[[num,den],…]} → {"prods":[rat,…]}: prods[0] = fl53 x₀, prods[i] = fmul53 prods[i-1] xᵢ
+    let xs ← ratList (← field req "chain")
+    let prods : List Rat := match xs with
+      | [] => []
+      | x :: rest => (rest.foldl (fun (acc : List Rat × Rat) y => let p := fmul53 acc.2 y; (p :: acc.1, p)) ([fl53 x], fl53 x)).1.reverse
+    pure (obj [("prods", ofList ratToJson prods)])
   | _ =>
     let is ← (← arr (← field req "terms")).mapM parseInter
     let kw ← (← arr (← field req "ns")).mapM (fun p => do
@@ -101,6 +167,8 @@ def handle (req : Json) : Except String Json := do
                                        outToJson (encode c is kw)]) allCfgs),
                ("spec", outToJson (.ok (encodeS is kw))),
                ("len", ofNat (encodeLen is kw)),
+               ("collides", Json.bool (collides is kw)),
+               ("nmonos", ofNat (sparseMonos is kw).length),
                ("maxdeg", ofNat ((strTerms is).foldl (fun m t => max m t.length) 0)),
                ("hyp", Json.bool ((strTerms is).all (fun t => !t.isEmpty)))])
 
